@@ -171,6 +171,12 @@ FrameChecks(ev, f, a, pre, post, ctx, x, obs, tlo, thi) ==
   /\ Chk("DRIFT", "heading19", DrfHdg19(pre, post.hdg, f, ctx), ev, path)
   /\ Chk("DRIFT", "ground_movement", AddrOnly(f, ctx) \/ DrfGm(pre, post.gm, f, ctx), ev, path)
   /\ Chk("DRIFT", "surface_track", DrfTrkSurface(pre, post.trk, f, ctx), ev, path)
+  /\ Chk("DRIFT", "alt_metric", DrfAltM1(pre, post.alt, f, ctx), ev, path)
+  /\ Chk("DRIFT", "marker_alt", AddrOnly(f, ctx) \/ Free(f) \/ DrfAlts(pre, post.alts, f, ctx), ev, path)
+  /\ Chk("DRIFT", "marker_trk", AddrOnly(f, ctx) \/ DrfTrks(pre, post.trks, f, ctx, post.trk # pre.trk), ev, path)
+  /\ Chk("DRIFT", "marker_hdg", AddrOnly(f, ctx) \/ DrfHdgs(pre, post.hdgs, f, ctx), ev, path)
+  /\ Chk("DRIFT", "marker_vr", AddrOnly(f, ctx) \/ DrfVrs(pre, post.vrs, f, ctx), ev, path)
+  /\ Chk("DRIFT", "marker_sel", AddrOnly(f, ctx) \/ DrfSels(pre, post.sels, f, ctx), ev, path)
   /\ Chk("DRIFT", "position_stamp", DrfPts(pre, post, f, ctx), ev, path)
   /\ Chk("DRIFT", "df18_default", DrfDf18Default(pre, post, f, ctx), ev, path)
   \* C12: the age restarts with every accepted frame
